@@ -237,6 +237,62 @@ func checkPath(res *core.Result, fwd, ret []m.SwitchLabel, probeMinimal bool) {
 	res.Case(pathKey(fwd, ret), nontrivial(fwd, ret))
 }
 
+// checkRebuild: blocks are built on a path struct that already carries blocks (a route refresh: the routing
+// table copies entries by value and rebuilds paths in place). The rebuilt path must traverse exactly, and the
+// blocks of the copy handed out earlier must still carry the earlier path.
+func checkRebuild(res *core.Result, fwd1, ret1, fwd2, ret2 []m.SwitchLabel) {
+	mk := func(fwd, ret []m.SwitchLabel) []m.SwitchHop {
+		hops := make([]m.SwitchHop, len(fwd))
+		for i := range hops {
+			hops[i] = m.SwitchHop{ForwardLabel: fwd[i], ReturnLabel: ret[i]}
+		}
+		return hops
+	}
+	if refSize(fwd1, ret1) > 255 || refSize(fwd2, ret2) > 255 {
+		return
+	}
+	wit := map[string]any{"first_forward": fwd1, "first_return": ret1, "second_forward": fwd2, "second_return": ret2, "case_id": "rebuild"}
+	sp := &m.SwitchPath{Hops: mk(fwd1, ret1)}
+	var err1, err2 error
+	if pv := func() (pv any) {
+		defer func() { pv = recover() }()
+		err1 = sp.BuildBlocks()
+		return nil
+	}(); pv != nil || err1 != nil {
+		return // judged by checkPath
+	}
+	held := *sp // what a table entry copied by value holds
+	saveF, saveR := bytes.Clone(sp.ForwardBlock), bytes.Clone(sp.ReturnBlock)
+	sp.Hops = mk(fwd2, ret2)
+	if pv := func() (pv any) {
+		defer func() { pv = recover() }()
+		err2 = sp.BuildBlocks()
+		return nil
+	}(); pv != nil {
+		res.Violate("buildblocks-panic:rebuild", fmt.Sprintf("BuildBlocks panicked (%v) when rebuilding a path that already carried blocks", pv), wit)
+		return
+	}
+	if err2 != nil {
+		res.Violate("valid-path-refused:rebuild", fmt.Sprintf("rebuilding a valid path on a struct that already carried blocks was refused: %v", err2), wit)
+		return
+	}
+	want := refSize(fwd2, ret2)
+	if len(sp.ForwardBlock) != want || len(sp.ReturnBlock) != want {
+		res.Violate("blocks-wrong-length:rebuild", fmt.Sprintf("rebuilt blocks have lengths %d/%d, reference size %d", len(sp.ForwardBlock), len(sp.ReturnBlock), want), wit)
+		return
+	}
+	if fail := traverse(fwd2, ret2, sp.ForwardBlock, sp.ReturnBlock, want); fail != "" {
+		res.Violate("traversal-failed:rebuild", fmt.Sprintf("path rebuilt on a struct that carried the blocks of an earlier %d-hop path (now %d hops, block size %d): %s (forward block %x)", len(fwd1), len(fwd2), want, fail, sp.ForwardBlock), wit)
+		return
+	}
+	if !bytes.Equal(held.ForwardBlock, saveF) || !bytes.Equal(held.ReturnBlock, saveR) {
+		res.Violate("earlier-blocks-changed-by-rebuild", fmt.Sprintf("rebuilding the path changed the blocks of the copy handed out before (forward %x -> %x)", saveF, held.ForwardBlock), wit)
+		return
+	}
+	res.Count("paths_rebuilt_in_place", 1)
+	res.Case("rebuild|"+pathKey(fwd1, ret1)+">"+pathKey(fwd2, ret2), true)
+}
+
 func parallel(n int, fn func(w int)) {
 	var wg sync.WaitGroup
 	for w := 0; w < n; w++ {
@@ -370,10 +426,22 @@ func run(c *core.Ctx) {
 				res.Sample(map[string]any{"hops": len(fwd), "forward_labels": fwd, "return_labels": ret, "reference_size": refSize(fwd, ret)})
 			}
 			checkPath(res, fwd, ret, i%4 == 0)
+			if i%3 == 0 {
+				// refresh with a path of the same or a shorter shape (fewer hops and/or shorter labels)
+				fwd2, ret2 := randomPath(r)
+				if len(fwd2) > len(fwd) {
+					fwd2, ret2 = fwd2[len(fwd2)-len(fwd):], ret2[len(ret2)-len(fwd):]
+					fwd2, ret2 = append([]m.SwitchLabel(nil), fwd2...), append([]m.SwitchLabel(nil), ret2...)
+					ret2[0] = 0
+				}
+				checkRebuild(res, fwd, ret, fwd2, ret2)
+				checkRebuild(res, fwd2, ret2, fwd, ret)
+			}
 		}
 	})
 	res.Sample(map[string]any{"hops": 2, "forward_labels": []int{16384, 0}, "return_labels": []int{0, 1}, "note": "two-hop path with a three-byte label (not covered by the repo tests)"})
 	res.Assume("a valid path has hop[0].ReturnLabel == 0 and hop[last].ForwardLabel == 0 and non-zero labels elsewhere (what announcements produce)")
 	res.Require(res.Counter("oversize_paths_refused") >= 100, "fewer than 100 oversize paths exercised")
 	res.Require(res.Counter("paths_traversed_both_ways") >= 10000, "fewer than 10000 traversals")
+	res.Require(res.Counter("paths_rebuilt_in_place") >= 1000, "fewer than 1000 in-place rebuilds")
 }
